@@ -77,6 +77,9 @@ fn run_kl<T: coupe::Topology<f64> + Sync>(
 
 struct Case {
     topo: Topo,
+    /// also evaluate the Coq model (false: thousands of vertices with unlimited flips / passes --
+    /// the case is judged by the certified checker only)
+    model: bool,
     fam: String,
     pfam: String,
     adj: Adj,
@@ -101,8 +104,118 @@ fn gen_limit(r: &mut Rng) -> Option<usize> {
     }
 }
 
+/// More than 1024 vertices (block sizes of chunked / parallel scans): 1025..2200.
+/// * `big_gadget`: two heavy paths (weight 100, one per part, never worth a swap) over the first
+///   H >= 1024 vertices, then small path gadgets  a -w- c -w- d -w- b  (parts 1,1,0,0 in index
+///   order a,b,c,d = 1,0,1,0) whose vertices all have an index >= 1024: a nearly locally optimal
+///   input where a pass makes a bad swap followed by good ones inside the gadget;
+/// * `big_planted`: planted bisection (edges mostly inside the parts, 1 in 20 across), the
+///   planted partition as input with a few vertices misplaced, mostly at indices >= 1024.
+/// Flips per pass Some(2..5) (model evaluated) or None (checker only: a pass is O(n^2) in Coq).
+fn gen_big(r: &mut Rng) -> Case {
+    let mb = r.range(1, 3) as usize;
+    if r.chance(9, 20) {
+        // the heavy prefix ends just past a power of two (block sizes 256 .. 2048 of a chunked scan)
+        let base = *r.pick(&[512usize, 512, 512, 512, 512, 512, 128, 256, 1024]);
+        let h = 2 * (base + r.below(50) as usize);
+        let k = if r.chance(3, 4) { 1 } else { r.range(2, 3) as usize };
+        let n = h + 4 * k;
+        let mut adj: Adj = vec![Vec::new(); n];
+        let mut p0 = vec![0usize; n];
+        let mut edge = |adj: &mut Adj, u: usize, v: usize, w: i64| {
+            adj[u].push((v, w));
+            adj[v].push((u, w));
+        };
+        for u in 0..h - 1 {
+            if u != h / 2 - 1 {
+                edge(&mut adj, u, u + 1, 100);
+            }
+        }
+        for part in &mut p0[h / 2..h] {
+            *part = 1;
+        }
+        for j in 0..k {
+            let b = h + 4 * j;
+            let w = r.range(2, 5);
+            edge(&mut adj, b, b + 2, w);
+            edge(&mut adj, b + 1, b + 3, w);
+            edge(&mut adj, b + 2, b + 3, w);
+            p0[b] = 1;
+            p0[b + 1] = 0;
+            p0[b + 2] = 1;
+            p0[b + 3] = 0;
+        }
+        for row in adj.iter_mut() {
+            row.sort();
+        }
+        let mf = Some(if r.chance(3, 4) { *r.pick(&[2usize, 4]) } else { *r.pick(&[3usize, 5, 6]) });
+        return Case {
+            topo: Topo::Csr,
+            model: true,
+            fam: "big_gadget".to_string(),
+            pfam: "partition/big_gadget".to_string(),
+            wlen: n,
+            adj,
+            p0,
+            mp: *r.pick(&[None, Some(1), Some(2), Some(3)]),
+            mf,
+            mb,
+        };
+    }
+    // 1025..2200, the smaller sizes more often (cost of the evaluation in Coq)
+    let n = r.range(1025, 2200).min(r.range(1025, 2200)) as usize;
+    let planted: Vec<usize> = (0..n).map(|_| r.below(2) as usize).collect();
+    let mut adj: Adj = vec![Vec::new(); n];
+    let tries = r.range(4, 7);
+    for u in 0..n {
+        for _ in 0..tries {
+            let v = r.below(n as u64) as usize;
+            if planted[u] != planted[v] && !r.chance(1, 20) {
+                continue;
+            }
+            if v == u || adj[u].iter().any(|(x, _)| *x == v) {
+                continue;
+            }
+            let w = r.range(1, 5);
+            adj[u].push((v, w));
+            adj[v].push((u, w));
+        }
+    }
+    for row in adj.iter_mut() {
+        row.sort();
+    }
+    // a few misplaced vertices, mostly past index 1024 (pairs, so that the sizes stay close)
+    let mut p0 = planted;
+    let misplaced = if r.chance(1, 2) { 0 } else { r.range(1, 4) };
+    for _ in 0..misplaced {
+        let i = if r.chance(3, 4) { r.range(1024, n as i64 - 1) as usize } else { r.below(n as u64) as usize };
+        p0[i] = 1 - p0[i];
+    }
+    let (model, mf, mp) = if r.chance(1, 3) {
+        (true, Some(r.range(2, 5) as usize), Some(r.range(1, 3) as usize))
+    } else {
+        (false, None, *r.pick(&[None, None, Some(2), Some(4)]))
+    };
+    Case {
+        topo: Topo::Csr,
+        model,
+        fam: if model { "big_planted".to_string() } else { "big_planted_checker_only".to_string() },
+        pfam: "partition/big_planted".to_string(),
+        wlen: n,
+        adj,
+        p0,
+        mp,
+        mf,
+        mb,
+    }
+}
+
 fn gen_case(r: &mut Rng, tier: &str) -> Case {
     let big = tier == "thorough";
+    // VERIF_C15_BIG_ONLY=1: exploration aid, every case from the > 1024-vertex families
+    if r.chance(1, 320) || std::env::var_os("VERIF_C15_BIG_ONLY").is_some() {
+        return gen_big(r);
+    }
     let (mut gname, mut adj) = gen_graph(r, big);
     let mut topo = Topo::Csr;
     match r.below(10) {
@@ -188,6 +301,7 @@ fn gen_case(r: &mut Rng, tier: &str) -> Case {
     };
     Case {
         topo,
+        model: true,
         fam: format!("{}{}{}", stream, tname, gname),
         pfam: format!("partition/{}", pname),
         adj,
@@ -227,7 +341,7 @@ fn main() {
         let (mp, mf, mb) = (c.mp, c.mf, c.mb);
         let adj2 = c.adj.clone();
         let topo2 = c.topo.clone();
-        let res = guarded(0, Duration::from_secs(20), move || match topo2 {
+        let res = guarded(0, Duration::from_secs(if n > 1000 { 240 } else { 20 }), move || match topo2 {
             Topo::Csr => {
                 let (indptr, indices, data) = csr(&adj2);
                 let dataf: Vec<f64> = data.iter().map(|x| *x as f64).collect();
@@ -258,9 +372,10 @@ fn main() {
             _ => {}
         }
         let coq = format!(
-            "mk15 {} {} {}%nat {} {} {} {}%N {}",
+            "mk15 {} {} {} {}%nat {} {} {} {}%N {}",
             coq_graph(&c.adj),
             coq_bool(matches!(c.topo, Topo::Csr)),
+            coq_bool(c.model),
             c.wlen,
             coq_nlist(c.p0.iter().map(|x| *x as u128)),
             coq_opt_n(c.mp),
@@ -274,8 +389,9 @@ fn main() {
             ""
         };
         let json = format!(
-            "{{{}\"topology\":{},\"graph\":{},\"weights_len\":{},\"partition\":{},\"max_passes\":{},\"max_flips_per_pass\":{},\"max_bad_move_in_a_row\":{},\"impl\":{}}}",
+            "{{{}\"model_evaluated\":{},\"topology\":{},\"graph\":{},\"weights_len\":{},\"partition\":{},\"max_passes\":{},\"max_flips_per_pass\":{},\"max_bad_move_in_a_row\":{},\"impl\":{}}}",
             kf,
+            c.model,
             json_str(&format!("{:?}", c.topo)),
             json_graph(&c.adj),
             c.wlen,
